@@ -8,5 +8,7 @@ CONSTANTS
   ErrCodes = {"e1", "e2"}
   Deviations = {}
   SharedCatchPrev = FALSE
+  AdvSet = {1}
+  MaxTime = 0
 POSTCONDITION TraceAccepted
 CHECK_DEADLOCK FALSE
